@@ -255,6 +255,9 @@ type Script struct {
 	Quiet  bool // symbolic evaluation under binders: no definitions, assumptions or obligations
 	LemmaSeq int // >0 when this script proves a lemma
 	Passive  bool // definitions as constants with equations instead of macros
+	// Until[i] = n: assumption line i is left out of obligations created after line n (a fact only
+	// needed up to the next loop head; leaving an assumption out is always sound)
+	Until map[int]int
 }
 
 // Global holds sorts, datatypes, uninterpreted functions and axioms shared by
@@ -406,7 +409,10 @@ func (o *Obligation) Render(logic string) string {
 	s := o.script
 	g := s.G
 	var body strings.Builder
-	for _, l := range s.Lines[:o.Prefix] {
+	for i, l := range s.Lines[:o.Prefix] {
+		if u, ok := s.Until[i]; ok && o.Prefix > u {
+			continue
+		}
 		body.WriteString(l.Text)
 		if l.Note != "" {
 			body.WriteString(" ; ")
